@@ -280,7 +280,7 @@ func TestC14(t *testing.T) {
 	for _, v := range viols {
 		run.Violation(fmt.Sprintf("C14/%s", v.fn), fmt.Sprintf("%s%v = %v, definition gives %v", v.fn, v.args, v.got, v.want), v)
 	}
-	code := run.Finish("for each base point (boundaries 0,1,2^31±1,2^32-1 + PRNG bases): distances at ±k around every power of two, a 2^14-strided sweep with PRNG jitter, (thorough: all 2^32 distances) for LessThan/LessThanEq/Size/Add/UpdateForward; edge probes for InRange/InWindow; edge-aligned second windows for Overlap; plus PRNG tuples. distinct_nontrivial counts (function, base, log2-distance bucket) classes exercised",
+	code := run.Finish("for each base point (boundaries 0,1,2^31±1,2^32-1 + PRNG bases): distances at ±k around every power of two, a 2^14-strided sweep with PRNG jitter, (thorough: all 2^32 distances) for LessThan/LessThanEq/Size/Add/UpdateForward; edge probes for InRange/InWindow; edge-aligned second windows for Overlap; plus PRNG tuples. distinct_nontrivial counts (function, base, log2-distance bucket) classes exercised Later additions: TCP half (h/script): a segment that starts behind the receive window's left edge and ends beyond its right edge must be accepted.",
 		[]string{"antipodal distance 2^31 for the comparisons, empty windows and unions spanning >= 2^31 for Overlap are evaluated and counted but not judged (outside serial-number arithmetic's domain)", "TCP-level half: the same relative scripted-peer script (in-order, out-of-order, overlapping and duplicate data, writes, partial/duplicate/SACK ACKs, reads, pauses) is replayed in virtual time with both initial sequence numbers far from any wrap and then placed just below 2^31 / 2^32; the stack's transcript in relative numbers must be identical (a baseline that is not reproducible run-to-run is inconclusive); C01/C02/C04/C05 additionally place ISS at wrap-adjacent values"})
 	os.Exit(code)
 }
